@@ -44,10 +44,28 @@ fn upstream_answer(rng: &mut Rng, q: &Value) -> Value {
             v.push(rr(o, "RRSIG", ttl, id));
         }
     };
+    // RFC 2308 type 1 / type 2 negative answers: SOA alone, SOA then NS, or
+    // NS then SOA -- the class does not depend on the order
     let soa = |v: &mut Vec<Value>, rng: &mut Rng| {
+        let shape = rng.below(4);
+        let push_ns = |v: &mut Vec<Value>| {
+            v.push(rr(zone, "NS", t2, 1));
+            v.push(rr(zone, "NS", t2, 2));
+            if dok {
+                v.push(rr(zone, "RRSIG", t2, 2));
+            }
+        };
+        if shape == 2 {
+            push_ns(v);
+        }
         v.push(rr(zone, "SOA", t2, 2024000000 + rng.below(3)));
         if dok {
             v.push(rr(zone, "RRSIG", t2, 8));
+        }
+        if shape == 3 {
+            push_ns(v);
+        }
+        if dok {
             let nt = if rng.chance(1, 6) { "NSEC3" } else { "NSEC" };
             v.push(rr(&name, nt, t3, 3));
             v.push(rr(&name, "RRSIG", t3, 4));
